@@ -1,4 +1,5 @@
 import PebblesVerif.Proofs.IntrospectBasic
+import PebblesVerif.Proofs.IntrospectSort
 import PebblesVerif.Spec.IntrospectSupported
 /-!
 Helper lemmas for C16 (2): the resolver model against the specification, by mutual induction on
@@ -307,15 +308,13 @@ theorem dirP1_step (S : Schema) (vars : List (String × J)) (d : DirDef) (hl : d
 
 /-! ### types: the wrappers -/
 
-theorem typeP1_wrap_step (S : Schema) (vars : List (String × J)) (t' : TypeRef) (k : String)
+theorem typeP1_wrap_step (S : Schema) (vars : List (String × J)) (t t' : TypeRef) (k : String)
+    (ht : (t = .list t' ∧ k = "LIST") ∨ (t = .nonNull t' ∧ k = "NON_NULL"))
     (a n : String) (args : List (String × IVal)) (sub : List ISel)
     (h : ok1 .type (.field a n args sub) = true)
     (IHT : okL .type sub = true → (ISel.keys sub).Nodup →
       typeV S t' (typeP S vars t' sub) = projV (introspect S) vars (typeRef S t') sub) :
-    (match n with
-        | "kind" => [(a, J.str k)]
-        | "ofType" => [(a, typeV S t' (typeP S vars t' sub))]
-        | _ => [(a, J.null)])
+    typeP1 S vars t (.field a n args sub)
       = sel1 (introspect S) vars (.obj [tn "__Type", ("kind", .str k), ("name", .null), ("ofType", typeRef S t')])
           (.field a n args sub) := by
   have hc : ∃ r, child .type n = some r := by
@@ -323,31 +322,30 @@ theorem typeP1_wrap_step (S : Schema) (vars : List (String × J)) (t' : TypeRef)
   obtain ⟨r, hc⟩ := hc
   rcases child_type hc with ⟨rfl, rfl⟩ | ⟨rfl, rfl⟩ | ⟨rfl, rfl⟩ | ⟨rfl, rfl⟩ | ⟨rfl, rfl⟩ | ⟨rfl, rfl⟩ | ⟨rfl, rfl⟩ | ⟨rfl, rfl⟩ | ⟨rfl, rfl⟩
   · have hs := ok1_leaf h hc; subst hs
-    simp [sel1_leaf, fieldValue, getKey, J.get?, J.lookup, tn]
+    rcases ht with ⟨rfl, rfl⟩ | ⟨rfl, rfl⟩ <;> simp [typeP1, sel1_leaf, fieldValue, getKey, J.get?, J.lookup, tn]
   · have hs := ok1_leaf h hc; subst hs
-    simp [sel1_leaf, fieldValue, getKey, J.get?, J.lookup, tn]
+    rcases ht with ⟨rfl, rfl⟩ | ⟨rfl, rfl⟩ <;> simp [typeP1, sel1_leaf, fieldValue, getKey, J.get?, J.lookup, tn]
   · have hs := ok1_leaf h hc; subst hs
-    simp [sel1_leaf, fieldValue, getKey, J.get?, J.lookup, tn]
+    rcases ht with ⟨rfl, rfl⟩ | ⟨rfl, rfl⟩ <;> simp [typeP1, sel1_leaf, fieldValue, getKey, J.get?, J.lookup, tn]
   · obtain ⟨hne, _, _, _⟩ := ok1_comp h hc
     rw [sel1_comp _ _ _ _ _ _ hne]
-    simp [fieldValue, getKey, J.get?, J.lookup, tn, dropDeprecated]
+    rcases ht with ⟨rfl, rfl⟩ | ⟨rfl, rfl⟩ <;> simp [typeP1, fieldValue, getKey, J.get?, J.lookup, tn, dropDeprecated]
   · obtain ⟨hne, _, _, _⟩ := ok1_comp h hc
     rw [sel1_comp _ _ _ _ _ _ hne]
-    simp [fieldValue, getKey, J.get?, J.lookup, tn]
+    rcases ht with ⟨rfl, rfl⟩ | ⟨rfl, rfl⟩ <;> simp [typeP1, fieldValue, getKey, J.get?, J.lookup, tn]
   · obtain ⟨hne, _, _, _⟩ := ok1_comp h hc
     rw [sel1_comp _ _ _ _ _ _ hne]
-    simp [fieldValue, getKey, J.get?, J.lookup, tn]
+    rcases ht with ⟨rfl, rfl⟩ | ⟨rfl, rfl⟩ <;> simp [typeP1, fieldValue, getKey, J.get?, J.lookup, tn]
   · obtain ⟨hne, _, _, _⟩ := ok1_comp h hc
     rw [sel1_comp _ _ _ _ _ _ hne]
-    simp [fieldValue, getKey, J.get?, J.lookup, tn, dropDeprecated]
+    rcases ht with ⟨rfl, rfl⟩ | ⟨rfl, rfl⟩ <;> simp [typeP1, fieldValue, getKey, J.get?, J.lookup, tn, dropDeprecated]
   · obtain ⟨hne, _, _, _⟩ := ok1_comp h hc
     rw [sel1_comp _ _ _ _ _ _ hne]
-    simp [fieldValue, getKey, J.get?, J.lookup, tn]
+    rcases ht with ⟨rfl, rfl⟩ | ⟨rfl, rfl⟩ <;> simp [typeP1, fieldValue, getKey, J.get?, J.lookup, tn]
   · obtain ⟨hne, hk, hnd, _⟩ := ok1_comp h hc
     rw [sel1_comp _ _ _ _ _ _ hne]
-    simp only []
-    rw [IHT hk hnd]
-    simp [fieldValue, getKey, J.get?, J.lookup, tn]
+    rcases ht with ⟨rfl, rfl⟩ | ⟨rfl, rfl⟩ <;>
+      (simp only [typeP1]; rw [IHT hk hnd]; simp [fieldValue, getKey, J.get?, J.lookup, tn])
 
 /-! ### types: a named type -/
 
@@ -573,5 +571,473 @@ theorem typeP1_named_step (S : Schema) (vars : List (String × J)) (n : String) 
     obtain ⟨hne, _, _, _⟩ := ok1_comp h hc
     rw [sel1_comp _ _ _ _ _ _ hne]
     simp [typeP1, hty, fieldValue, getKey, J.get?, J.lookup, tn]
+
+/-! ### the mutual induction over the selection set -/
+
+theorem reasons_of_type {S : Schema} (hR : reasonsGiven S = true) {n : String} {td : TypeDef} (hty : S.type? n = some td) :
+    (∀ f ∈ td.fields, reasonOK f.directives = true) ∧ (∀ e ∈ td.enumValues, reasonOK e.directives = true) := by
+  have hm : td ∈ S.types := List.mem_of_find?_eq_some hty
+  unfold reasonsGiven at hR
+  have := List.all_eq_true.mp hR td hm
+  simp only [Bool.and_eq_true, List.all_eq_true] at this
+  exact this
+
+theorem typeRef_named_ne_null {S : Schema} {n : String} (h : typeRef S (.named n) ≠ .null) :
+    ∃ td, S.type? n = some td ∧
+      typeRef S (.named n) = .obj [tn "__Type", ("kind", .str td.kind.toString), ("name", .str n), ("ofType", .null)] := by
+  cases hty : S.type? n with
+  | none => simp [typeRef, namedRef, hty] at h
+  | some td => exact ⟨td, rfl, by simp [typeRef, namedRef, hty]⟩
+
+mutual
+  theorem typeP1_eq (S : Schema) (vars : List (String × J)) (hR : reasonsGiven S = true) (t : TypeRef)
+      (hne : typeRef S t ≠ .null) :
+      (s : ISel) → ok1 .type s = true → typeP1 S vars t s = sel1 (introspect S) vars (typeRef S t) s
+    | .inline sub, h => by
+      simp only [typeP1, sel1]
+      exact typeP_eq S vars hR t hne sub (by simpa [ok1] using h)
+    | .field a n args sub, h => by
+      cases t with
+      | list t' =>
+        simp only [typeRef]
+        exact typeP1_wrap_step S vars (.list t') t' "LIST" (Or.inl ⟨rfl, rfl⟩) a n args sub h
+          (fun hk hnd => typeV_eq S vars t' sub hnd (fun hne' => typeP_eq S vars hR t' hne' sub hk))
+      | nonNull t' =>
+        simp only [typeRef]
+        exact typeP1_wrap_step S vars (.nonNull t') t' "NON_NULL" (Or.inr ⟨rfl, rfl⟩) a n args sub h
+          (fun hk hnd => typeV_eq S vars t' sub hnd (fun hne' => typeP_eq S vars hR t' hne' sub hk))
+      | named tn' =>
+        obtain ⟨td, hty, href⟩ := typeRef_named_ne_null hne
+        rw [href]
+        exact typeP1_named_step S vars tn' td hty (reasons_of_type hR hty).1 (reasons_of_type hR hty).2 a n args sub h
+          (fun hk hnd t'' => typeV_eq S vars t'' sub hnd (fun hne' => typeP_eq S vars hR t'' hne' sub hk))
+          (fun hk f hr => fieldP_eq S vars hR f hr sub hk)
+          (fun hk name desc ty dflt => inputP_eq S vars hR name desc ty dflt sub hk)
+  theorem typeP_eq (S : Schema) (vars : List (String × J)) (hR : reasonsGiven S = true) (t : TypeRef)
+      (hne : typeRef S t ≠ .null) :
+      (sels : List ISel) → okL .type sels = true → typeP S vars t sels = selL (introspect S) vars (typeRef S t) sels
+    | [], _ => rfl
+    | s :: rest, h => by
+      simp only [okL, Bool.and_eq_true] at h
+      simp only [typeP, selL, typeP1_eq S vars hR t hne s h.1, typeP_eq S vars hR t hne rest h.2]
+  theorem fieldP1_eq (S : Schema) (vars : List (String × J)) (hR : reasonsGiven S = true) (f : FieldDef)
+      (hr : reasonOK f.directives = true) :
+      (s : ISel) → ok1 .field s = true → fieldP1 S vars f s = sel1 (introspect S) vars (fieldJ S f) s
+    | .inline sub, h => by
+      simp only [fieldP1, sel1]
+      exact fieldP_eq S vars hR f hr sub (by simpa [ok1] using h)
+    | .field a n args sub, h =>
+      fieldP1_step S vars f hr a n args sub h
+        (fun hk hnd => typeV_eq S vars f.type sub hnd (fun hne' => typeP_eq S vars hR f.type hne' sub hk))
+        (fun hk name desc ty dflt => inputP_eq S vars hR name desc ty dflt sub hk)
+  theorem fieldP_eq (S : Schema) (vars : List (String × J)) (hR : reasonsGiven S = true) (f : FieldDef)
+      (hr : reasonOK f.directives = true) :
+      (sels : List ISel) → okL .field sels = true → fieldP S vars f sels = selL (introspect S) vars (fieldJ S f) sels
+    | [], _ => rfl
+    | s :: rest, h => by
+      simp only [okL, Bool.and_eq_true] at h
+      simp only [fieldP, selL, fieldP1_eq S vars hR f hr s h.1, fieldP_eq S vars hR f hr rest h.2]
+  theorem inputP1_eq (S : Schema) (vars : List (String × J)) (hR : reasonsGiven S = true)
+      (name desc : String) (ty : TypeRef) (dflt : Option String) :
+      (s : ISel) → ok1 .input s = true →
+        inputP1 S vars name desc ty dflt s = sel1 (introspect S) vars (inputValue S name desc ty dflt) s
+    | .inline sub, h => by
+      simp only [inputP1, sel1]
+      exact inputP_eq S vars hR name desc ty dflt sub (by simpa [ok1] using h)
+    | .field a n args sub, h =>
+      inputP1_step S vars name desc ty dflt a n args sub h
+        (fun hk hnd => typeV_eq S vars ty sub hnd (fun hne' => typeP_eq S vars hR ty hne' sub hk))
+  theorem inputP_eq (S : Schema) (vars : List (String × J)) (hR : reasonsGiven S = true)
+      (name desc : String) (ty : TypeRef) (dflt : Option String) :
+      (sels : List ISel) → okL .input sels = true →
+        inputP S vars name desc ty dflt sels = selL (introspect S) vars (inputValue S name desc ty dflt) sels
+    | [], _ => rfl
+    | s :: rest, h => by
+      simp only [okL, Bool.and_eq_true] at h
+      simp only [inputP, selL, inputP1_eq S vars hR name desc ty dflt s h.1, inputP_eq S vars hR name desc ty dflt rest h.2]
+end
+
+/-- `resolveType` answers as the specification prescribes, for every type reference -/
+theorem typeV_spec (S : Schema) (vars : List (String × J)) (hR : reasonsGiven S = true) (t : TypeRef) (sub : List ISel)
+    (hk : okL .type sub = true) (hnd : (ISel.keys sub).Nodup) :
+    typeV S t (typeP S vars t sub) = projV (introspect S) vars (typeRef S t) sub :=
+  typeV_eq S vars t sub hnd (fun hne => typeP_eq S vars hR t hne sub hk)
+
+/-! ### directives -/
+
+mutual
+  theorem dirP1_eq (S : Schema) (vars : List (String × J)) (hR : reasonsGiven S = true) (d : DirDef) (hl : d.locations ≠ []) :
+      (s : ISel) → ok1 .directive s = true → dirP1 S vars d s = sel1 (introspect S) vars (directiveJ S d) s
+    | .inline sub, h => by
+      simp only [dirP1, sel1]
+      exact dirP_eq S vars hR d hl sub (by simpa [ok1] using h)
+    | .field a n args sub, h =>
+      dirP1_step S vars d hl a n args sub h (fun hk name desc ty dflt => inputP_eq S vars hR name desc ty dflt sub hk)
+  theorem dirP_eq (S : Schema) (vars : List (String × J)) (hR : reasonsGiven S = true) (d : DirDef) (hl : d.locations ≠ []) :
+      (sels : List ISel) → okL .directive sels = true → dirP S vars d sels = selL (introspect S) vars (directiveJ S d) sels
+    | [], _ => rfl
+    | s :: rest, h => by
+      simp only [okL, Bool.and_eq_true] at h
+      simp only [dirP, selL, dirP1_eq S vars hR d hl s h.1, dirP_eq S vars hR d hl rest h.2]
+end
+
+/-! ### `name` selected un-aliased: the sort key -/
+
+mutual
+  theorem mem_keys1_of_hasName1 : (s : ISel) → hasName1 s = true → "name" ∈ ISel.keys1 s
+    | .inline sub, h => by simp only [hasName1] at h; simp only [ISel.keys1]; exact mem_keys_of_hasName sub h
+    | .field a n _ _, h => by simp [hasName1] at h; simp [ISel.keys1, h.1]
+  theorem mem_keys_of_hasName : (sels : List ISel) → hasName sels = true → "name" ∈ ISel.keys sels
+    | [], h => by simp [hasName] at h
+    | s :: rest, h => by
+      simp only [hasName, Bool.or_eq_true] at h
+      simp only [ISel.keys, List.mem_append]
+      rcases h with h | h
+      · exact Or.inl (mem_keys1_of_hasName1 s h)
+      · exact Or.inr (mem_keys_of_hasName rest h)
+end
+
+mutual
+  theorem nameKeyField1_not_mem : (s : ISel) → (acc : Option String) → "name" ∉ ISel.keys1 s → nameKeyField1 acc s = acc
+    | .inline sub, acc, h => by simp only [nameKeyField1]; exact nameKeyField_not_mem sub acc (by simpa [ISel.keys1] using h)
+    | .field a n _ _, acc, h => by
+      simp [ISel.keys1] at h
+      have : (a == "name") = false := by simp; exact fun e => h e.symm
+      simp [nameKeyField1, this]
+  theorem nameKeyField_not_mem : (sels : List ISel) → (acc : Option String) → "name" ∉ ISel.keys sels → nameKeyField acc sels = acc
+    | [], _, _ => rfl
+    | s :: rest, acc, h => by
+      simp only [ISel.keys, List.mem_append, not_or] at h
+      simp only [nameKeyField, nameKeyField1_not_mem s acc h.1, nameKeyField_not_mem rest acc h.2]
+end
+
+mutual
+  theorem nameKeyField1_of_hasName1 : (s : ISel) → (acc : Option String) → (ISel.keys1 s).Nodup → hasName1 s = true →
+      nameKeyField1 acc s = some "name"
+    | .inline sub, acc, hn, h => by
+      simp only [nameKeyField1]; exact nameKeyField_of_hasName sub acc (by simpa [ISel.keys1] using hn) (by simpa [hasName1] using h)
+    | .field a n _ _, acc, _, h => by
+      simp [hasName1] at h
+      simp [nameKeyField1, h.1, h.2]
+  theorem nameKeyField_of_hasName : (sels : List ISel) → (acc : Option String) → (ISel.keys sels).Nodup → hasName sels = true →
+      nameKeyField acc sels = some "name"
+    | [], _, _, h => by simp [hasName] at h
+    | s :: rest, acc, hn, h => by
+      simp only [hasName, Bool.or_eq_true] at h
+      simp only [ISel.keys] at hn
+      have hnd := List.nodup_append.mp hn
+      simp only [nameKeyField]
+      rcases h with h | h
+      · rw [nameKeyField1_of_hasName1 s acc hnd.1 h]
+        apply nameKeyField_not_mem
+        intro hm
+        exact hnd.2.2 "name" (mem_keys1_of_hasName1 s h) "name" hm rfl
+      · exact nameKeyField_of_hasName rest _ hnd.2.1 h
+end
+
+theorem sortable_of_hasName {sub : List ISel} (hn : (ISel.keys sub).Nodup) (h : hasName sub = true) : sortable sub = true := by
+  simp [sortable, nameKeyField_of_hasName sub none hn h]
+
+-- the `name` entry of the specification's projection, when `name` is selected un-aliased as a leaf
+mutual
+  theorem mem_sel1_name (doc : J) (vars : List (String × J)) (v : J) (c : Ctx) (hc : child c "name" = some none) :
+      (s : ISel) → ok1 c s = true → hasName1 s = true → ("name", getKey doc v "name") ∈ sel1 doc vars v s
+    | .inline sub, hok, hh => by
+      simp only [sel1]
+      exact mem_selL_name doc vars v c hc sub (by simpa [ok1] using hok) (by simpa [hasName1] using hh)
+    | .field a n args sub, hok, hh => by
+      simp [hasName1] at hh
+      obtain ⟨rfl, rfl⟩ := hh
+      have hs := ok1_leaf hok hc; subst hs
+      simp [sel1_leaf, fieldValue]
+  theorem mem_selL_name (doc : J) (vars : List (String × J)) (v : J) (c : Ctx) (hc : child c "name" = some none) :
+      (sels : List ISel) → okL c sels = true → hasName sels = true → ("name", getKey doc v "name") ∈ selL doc vars v sels
+    | [], _, hh => by simp [hasName] at hh
+    | s :: rest, hok, hh => by
+      simp only [okL, Bool.and_eq_true] at hok
+      simp only [hasName, Bool.or_eq_true] at hh
+      simp only [selL, List.mem_append]
+      rcases hh with hh | hh
+      · exact Or.inl (mem_sel1_name doc vars v c hc s hok.1 hh)
+      · exact Or.inr (mem_selL_name doc vars v c hc rest hok.2 hh)
+end
+
+/-! ### `__schema` -/
+
+/-- projecting the full `__Type` object of `types` is projecting a reference to it -/
+theorem getKey_full (S : Schema) {td : TypeDef} (hty : S.type? td.name = some td) (k : String) :
+    getKey (introspect S) (fullType S td) k = ((fullType S td).get? k).getD .null := by
+  unfold getKey
+  cases e : (fullType S td).get? k with
+  | some x => rfl
+  | none =>
+    have h1 : (fullType S td).get? "__typename" = some (.str "__Type") := by simp [fullType, J.get?, J.lookup, tn]
+    have h2 : (fullType S td).get? "name" = some (.str td.name) := by simp [fullType, J.get?, J.lookup, tn]
+    simp [h1, h2, findType_introspect, hty, e]
+
+theorem getKey_full_eq_ref (S : Schema) {td : TypeDef} (hty : S.type? td.name = some td) (k : String) :
+    getKey (introspect S) (fullType S td) k
+      = getKey (introspect S) (.obj [tn "__Type", ("kind", .str td.kind.toString), ("name", .str td.name), ("ofType", .null)]) k := by
+  rw [getKey_full S hty]
+  by_cases h1 : k = "__typename"
+  · subst h1; simp [getKey, fullType, J.get?, J.lookup, tn]
+  by_cases h2 : k = "kind"
+  · subst h2; simp [getKey, fullType, J.get?, J.lookup, tn]
+  by_cases h3 : k = "name"
+  · subst h3; simp [getKey, fullType, J.get?, J.lookup, tn]
+  by_cases h4 : k = "ofType"
+  · subst h4; simp [getKey, fullType, J.get?, J.lookup, tn]
+  rw [getKey_ref S hty k h1 h2 h3 h4]
+
+theorem fieldValue_congr (doc : J) (vars : List (String × J)) (v v' : J) (h : ∀ k, getKey doc v k = getKey doc v' k)
+    (n : String) (args : List (String × IVal)) : fieldValue doc vars v n args = fieldValue doc vars v' n args := by
+  unfold fieldValue
+  split <;> simp [h]
+
+mutual
+  theorem sel1_congr (doc : J) (vars : List (String × J)) (v v' : J) (h : ∀ k, getKey doc v k = getKey doc v' k) :
+      (s : ISel) → sel1 doc vars v s = sel1 doc vars v' s
+    | .inline sub => by simp only [sel1]; exact selL_congr doc vars v v' h sub
+    | .field a n args sub => by simp only [sel1, fieldValue_congr doc vars v v' h]
+  theorem selL_congr (doc : J) (vars : List (String × J)) (v v' : J) (h : ∀ k, getKey doc v k = getKey doc v' k) :
+      (sels : List ISel) → selL doc vars v sels = selL doc vars v' sels
+    | [] => rfl
+    | s :: rest => by simp only [selL, sel1_congr doc vars v v' h s, selL_congr doc vars v v' h rest]
+end
+
+theorem type?_of_mem {S : Schema} (hs : (S.types.map (·.name)).Pairwise (· < ·)) {td : TypeDef} (hm : td ∈ S.types) :
+    S.type? td.name = some td := by
+  unfold Schema.type?
+  cases hf : S.types.find? (fun t => t.name == td.name) with
+  | none =>
+    have := List.find?_eq_none.mp hf td hm
+    simp at this
+  | some td' =>
+    have hm' : td' ∈ S.types := List.mem_of_find?_eq_some hf
+    have hn : td'.name = td.name := by simpa using List.find?_some hf
+    rw [eq_of_key_eq (·.name) S.types hs td' hm' td hm hn]
+
+/-- one entry of `types`: `resolveType` on the definition's name is the projection of its full object -/
+theorem types_elem (S : Schema) (vars : List (String × J)) (hR : reasonsGiven S = true)
+    (hs : (S.types.map (·.name)).Pairwise (· < ·)) (sub : List ISel) (hk : okL .type sub = true) (hnd : (ISel.keys sub).Nodup)
+    (td : TypeDef) (hm : td ∈ S.types) :
+    typeV S (.named td.name) (typeP S vars (.named td.name) sub) = projV (introspect S) vars (fullType S td) sub := by
+  have hty := type?_of_mem hs hm
+  rw [typeV_spec S vars hR (.named td.name) sub hk hnd]
+  have hr : typeRef S (.named td.name) = .obj [tn "__Type", ("kind", .str td.kind.toString), ("name", .str td.name), ("ofType", .null)] := by
+    simp [typeRef, namedRef, hty]
+  rw [hr, projV_obj]
+  have hf : fullType S td = .obj (match fullType S td with | .obj kvs => kvs | _ => []) := by simp [fullType]
+  rw [hf, projV_obj, ← hf]
+  rw [selL_congr _ _ _ _ (fun k => (getKey_full_eq_ref S hty k).symm)]
+
+theorem types_elem_name (S : Schema) (vars : List (String × J)) (hR : reasonsGiven S = true)
+    (hs : (S.types.map (·.name)).Pairwise (· < ·)) (sub : List ISel) (hk : okL .type sub = true) (hnd : (ISel.keys sub).Nodup)
+    (hh : hasName sub = true) (td : TypeDef) (hm : td ∈ S.types) :
+    nameOf (typeV S (.named td.name) (typeP S vars (.named td.name) sub)) = td.name := by
+  rw [types_elem S vars hR hs sub hk hnd td hm]
+  have hf : fullType S td = .obj (match fullType S td with | .obj kvs => kvs | _ => []) := by simp [fullType]
+  rw [hf, projV_obj, ← hf]
+  have hkeys : (keysOf (selL (introspect S) vars (fullType S td) sub)).Nodup := by rw [keys_selL]; exact hnd
+  rw [mergePairs_of_nodup [] _ (by simpa using hkeys)]
+  have hmem := mem_selL_name (introspect S) vars (fullType S td) .type rfl sub hk hh
+  have hgk : getKey (introspect S) (fullType S td) "name" = .str td.name := by
+    simp [getKey, fullType, J.get?, J.lookup, tn]
+  rw [hgk] at hmem
+  simp [nameOf, J.get?, lookup_of_mem_nodup hkeys hmem]
+
+theorem dirs_elem (S : Schema) (vars : List (String × J)) (hR : reasonsGiven S = true) (sub : List ISel)
+    (hk : okL .directive sub = true) (hnd : (ISel.keys sub).Nodup) (d : DirDef) (hl : d.locations ≠ []) :
+    J.obj (J.assignAll [] (dirP S vars d sub)) = projV (introspect S) vars (directiveJ S d) sub :=
+  obj_assign_eq _ _ _ (by simpa [directiveJ] using dirP_eq S vars hR d hl sub hk) hnd
+
+theorem dirs_elem_name (S : Schema) (vars : List (String × J)) (hR : reasonsGiven S = true) (sub : List ISel)
+    (hk : okL .directive sub = true) (hnd : (ISel.keys sub).Nodup) (hh : hasName sub = true) (d : DirDef) (hl : d.locations ≠ []) :
+    nameOf (J.obj (J.assignAll [] (dirP S vars d sub))) = d.name := by
+  rw [dirs_elem S vars hR sub hk hnd d hl]
+  have hf : directiveJ S d = .obj (match directiveJ S d with | .obj kvs => kvs | _ => []) := by simp [directiveJ]
+  rw [hf, projV_obj, ← hf]
+  have hkeys : (keysOf (selL (introspect S) vars (directiveJ S d) sub)).Nodup := by rw [keys_selL]; exact hnd
+  rw [mergePairs_of_nodup [] _ (by simpa using hkeys)]
+  have hmem := mem_selL_name (introspect S) vars (directiveJ S d) .directive rfl sub hk hh
+  have hgk : getKey (introspect S) (directiveJ S d) "name" = .str d.name := by
+    simp [getKey, directiveJ, J.get?, J.lookup, tn]
+  rw [hgk] at hmem
+  simp [nameOf, J.get?, lookup_of_mem_nodup hkeys hmem]
+
+theorem rootRef_default {S : Schema} {r : Option String} {c : String} (h : rootIsDefault S r c = true) :
+    rootRef S r = namedRef S c := by
+  unfold rootIsDefault at h
+  have hr : r = (if (S.type? c).isSome then some c else none) := by simpa using h
+  cases hty : S.type? c with
+  | none => simp [hr, hty, rootRef, namedRef]
+  | some td => simp [hr, hty, rootRef]
+
+structure SchemaOK (S : Schema) : Prop where
+  typesSorted : (S.types.map (·.name)).Pairwise (· < ·)
+  dirsSorted : (S.directives.map (·.name)).Pairwise (· < ·)
+  reasons : reasonsGiven S = true
+  roots : defaultRoots S = true
+  locations : ∀ d ∈ S.directives, d.locations ≠ []
+
+theorem schemaP1_step (S : Schema) (hS : SchemaOK S) (tyOrd : List TypeDef) (dirOrd : List DirDef)
+    (hty : tyOrd.Perm S.types) (hdir : dirOrd.Perm S.directives) (vars : List (String × J))
+    (a n : String) (args : List (String × IVal)) (sub : List ISel)
+    (h : ok1 .schema (.field a n args sub) = true) :
+    schemaP1 S tyOrd dirOrd vars (.field a n args sub) = sel1 (introspect S) vars (schemaJ S) (.field a n args sub) := by
+  have hc : ∃ r, child .schema n = some r := by
+    unfold ok1 at h; split at h <;> simp_all
+  obtain ⟨r, hc⟩ := hc
+  have hroots := hS.roots
+  simp only [defaultRoots, Bool.and_eq_true] at hroots
+  rcases child_schema hc with ⟨rfl, rfl⟩ | ⟨rfl, rfl⟩ | ⟨rfl, rfl⟩ | ⟨rfl, rfl⟩ | ⟨rfl, rfl⟩
+  · -- types
+    obtain ⟨hne, hk, hnd, hmap⟩ := ok1_comp h hc
+    have hh : hasName sub = true := hmap (by decide)
+    rw [sel1_comp _ _ _ _ _ _ hne]
+    simp only [schemaP1, sortPayload, sortable_of_hasName hnd hh, if_true]
+    rw [sortByName_of_perm (·.name) _ tyOrd S.types hty
+      (fun td hm => types_elem_name S vars hS.reasons hS.typesSorted sub hk hnd hh td hm) hS.typesSorted]
+    have hv : fieldValue (introspect S) vars (schemaJ S) "types" args = .arr (S.types.map (fullType S)) := by
+      simp [fieldValue, getKey, schemaJ, J.get?, J.lookup, tn]
+    rw [hv]
+    congr 2
+    apply arr_assign_eq
+    · intro td hm
+      exact types_elem S vars hS.reasons hS.typesSorted sub hk hnd td hm
+    · intro td _ l; simp [fullType]
+  · -- queryType
+    obtain ⟨hne, hk, hnd, _⟩ := ok1_comp h hc
+    rw [sel1_comp _ _ _ _ _ _ hne]
+    simp only [schemaP1]
+    rw [typeV_spec S vars hS.reasons _ sub hk hnd]
+    have hv : fieldValue (introspect S) vars (schemaJ S) "queryType" args = typeRef S (.named "Query") := by
+      simp [fieldValue, getKey, schemaJ, J.get?, J.lookup, tn, rootRef_default hroots.1.1, typeRef]
+    rw [hv]
+  · -- mutationType
+    obtain ⟨hne, hk, hnd, _⟩ := ok1_comp h hc
+    rw [sel1_comp _ _ _ _ _ _ hne]
+    simp only [schemaP1]
+    rw [typeV_spec S vars hS.reasons _ sub hk hnd]
+    have hv : fieldValue (introspect S) vars (schemaJ S) "mutationType" args = typeRef S (.named "Mutation") := by
+      simp [fieldValue, getKey, schemaJ, J.get?, J.lookup, tn, rootRef_default hroots.1.2, typeRef]
+    rw [hv]
+  · -- subscriptionType
+    obtain ⟨hne, hk, hnd, _⟩ := ok1_comp h hc
+    rw [sel1_comp _ _ _ _ _ _ hne]
+    simp only [schemaP1]
+    rw [typeV_spec S vars hS.reasons _ sub hk hnd]
+    have hv : fieldValue (introspect S) vars (schemaJ S) "subscriptionType" args = typeRef S (.named "Subscription") := by
+      simp [fieldValue, getKey, schemaJ, J.get?, J.lookup, tn, rootRef_default hroots.2, typeRef]
+    rw [hv]
+  · -- directives
+    obtain ⟨hne, hk, hnd, hmap⟩ := ok1_comp h hc
+    have hh : hasName sub = true := hmap (by decide)
+    rw [sel1_comp _ _ _ _ _ _ hne]
+    simp only [schemaP1, sortPayload, sortable_of_hasName hnd hh, if_true]
+    rw [sortByName_of_perm (·.name) _ dirOrd S.directives hdir
+      (fun d hm => dirs_elem_name S vars hS.reasons sub hk hnd hh d (hS.locations d hm)) hS.dirsSorted]
+    have hv : fieldValue (introspect S) vars (schemaJ S) "directives" args = .arr (S.directives.map (directiveJ S)) := by
+      simp [fieldValue, getKey, schemaJ, J.get?, J.lookup, tn]
+    rw [hv]
+    congr 2
+    apply arr_assign_eq
+    · intro d hm
+      exact dirs_elem S vars hS.reasons sub hk hnd d (hS.locations d hm)
+    · intro d _ l; simp [directiveJ]
+
+mutual
+  theorem schemaP1_eq (S : Schema) (hS : SchemaOK S) (tyOrd : List TypeDef) (dirOrd : List DirDef)
+      (hty : tyOrd.Perm S.types) (hdir : dirOrd.Perm S.directives) (vars : List (String × J)) :
+      (s : ISel) → ok1 .schema s = true → schemaP1 S tyOrd dirOrd vars s = sel1 (introspect S) vars (schemaJ S) s
+    | .inline sub, h => by
+      simp only [schemaP1, sel1]
+      exact schemaP_eq S hS tyOrd dirOrd hty hdir vars sub (by simpa [ok1] using h)
+    | .field a n args sub, h => schemaP1_step S hS tyOrd dirOrd hty hdir vars a n args sub h
+  theorem schemaP_eq (S : Schema) (hS : SchemaOK S) (tyOrd : List TypeDef) (dirOrd : List DirDef)
+      (hty : tyOrd.Perm S.types) (hdir : dirOrd.Perm S.directives) (vars : List (String × J)) :
+      (sels : List ISel) → okL .schema sels = true → schemaP S tyOrd dirOrd vars sels = selL (introspect S) vars (schemaJ S) sels
+    | [], _ => rfl
+    | s :: rest, h => by
+      simp only [okL, Bool.and_eq_true] at h
+      simp only [schemaP, selL, schemaP1_eq S hS tyOrd dirOrd hty hdir vars s h.1, schemaP_eq S hS tyOrd dirOrd hty hdir vars rest h.2]
+end
+
+/-! ### the root selection set -/
+
+theorem rootP1_step (S : Schema) (hS : SchemaOK S) (hG : Gen.Introspect.typeNameReadsVariables = true)
+    (tyOrd : List TypeDef) (dirOrd : List DirDef)
+    (hty : tyOrd.Perm S.types) (hdir : dirOrd.Perm S.directives) (vars : List (String × J))
+    (a n : String) (args : List (String × IVal)) (sub : List ISel)
+    (h : ok1 .root (.field a n args sub) = true) :
+    rootP1 S tyOrd dirOrd vars (.field a n args sub) = sel1 (introspect S) vars (introspect S) (.field a n args sub) := by
+  have hc : ∃ r, child .root n = some r := by
+    unfold ok1 at h; split at h <;> simp_all
+  obtain ⟨r, hc⟩ := hc
+  rcases child_root hc with ⟨rfl, rfl⟩ | ⟨rfl, rfl⟩
+  · -- __schema
+    obtain ⟨hne, hk, hnd, _⟩ := ok1_comp h hc
+    rw [sel1_comp _ _ _ _ _ _ hne]
+    simp only [rootP1]
+    have hv : fieldValue (introspect S) vars (introspect S) "__schema" args = schemaJ S := by
+      simp [fieldValue, getKey, introspect, J.get?, J.lookup]
+    rw [hv]
+    congr 2
+    exact obj_assign_eq _ _ _ (by simpa [schemaJ] using schemaP_eq S hS tyOrd dirOrd hty hdir vars sub hk) hnd
+  · -- __type
+    obtain ⟨hne, hk, hnd, _⟩ := ok1_comp h hc
+    rw [sel1_comp _ _ _ _ _ _ hne]
+    simp only [rootP1, hG, if_true]
+    rw [typeV_spec S vars hS.reasons _ sub hk hnd]
+    have hv : fieldValue (introspect S) vars (introspect S) "__type" args = findType (introspect S) (ISel.strArg vars args "name") := by
+      simp [fieldValue]
+    rw [hv, findType_introspect]
+    cases hty' : S.type? (ISel.strArg vars args "name") with
+    | none => simp [typeRef, namedRef, hty']
+    | some td =>
+      have hname := type?_name hty'
+      have hty2 : S.type? td.name = some td := by rw [hname]; exact hty'
+      have hr : typeRef S (.named (ISel.strArg vars args "name"))
+          = .obj [tn "__Type", ("kind", .str td.kind.toString), ("name", .str td.name), ("ofType", .null)] := by
+        simp [typeRef, namedRef, hty', hname]
+      simp only [hr]
+      have hf : fullType S td = .obj (match fullType S td with | .obj kvs => kvs | _ => []) := by simp [fullType]
+      rw [projV_obj, hf, projV_obj, ← hf]
+      rw [selL_congr _ _ _ _ (fun k => (getKey_full_eq_ref S hty2 k).symm)]
+
+mutual
+  theorem rootP1_eq (S : Schema) (hS : SchemaOK S) (hG : Gen.Introspect.typeNameReadsVariables = true)
+      (tyOrd : List TypeDef) (dirOrd : List DirDef)
+      (hty : tyOrd.Perm S.types) (hdir : dirOrd.Perm S.directives) (vars : List (String × J)) :
+      (s : ISel) → ok1 .root s = true → rootP1 S tyOrd dirOrd vars s = sel1 (introspect S) vars (introspect S) s
+    | .inline sub, h => by
+      simp only [rootP1, sel1]
+      exact rootP_eq S hS hG tyOrd dirOrd hty hdir vars sub (by simpa [ok1] using h)
+    | .field a n args sub, h => rootP1_step S hS hG tyOrd dirOrd hty hdir vars a n args sub h
+  theorem rootP_eq (S : Schema) (hS : SchemaOK S) (hG : Gen.Introspect.typeNameReadsVariables = true)
+      (tyOrd : List TypeDef) (dirOrd : List DirDef)
+      (hty : tyOrd.Perm S.types) (hdir : dirOrd.Perm S.directives) (vars : List (String × J)) :
+      (sels : List ISel) → okL .root sels = true → rootP S tyOrd dirOrd vars sels = selL (introspect S) vars (introspect S) sels
+    | [], _ => rfl
+    | s :: rest, h => by
+      simp only [okL, Bool.and_eq_true] at h
+      simp only [rootP, selL, rootP1_eq S hS hG tyOrd dirOrd hty hdir vars s h.1, rootP_eq S hS hG tyOrd dirOrd hty hdir vars rest h.2]
+end
+
+theorem supportedSchema_ok {S : Schema} (h : supportedSchema S = true) : SchemaOK S := by
+  simp only [supportedSchema, strictlySorted, Bool.and_eq_true, decide_eq_true_eq, List.all_eq_true, Bool.not_eq_true',
+    List.isEmpty_eq_false_iff] at h
+  exact ⟨h.1.1.1.1, h.1.1.1.2, h.1.1.2, h.1.2, h.2⟩
+
+theorem resolve_eq_select (S : Schema) (hS : SchemaOK S) (hG : Gen.Introspect.typeNameReadsVariables = true)
+    (tyOrd : List TypeDef) (dirOrd : List DirDef) (hty : tyOrd.Perm S.types) (hdir : dirOrd.Perm S.directives)
+    (vars : List (String × J)) (sels : List ISel) (hsel : supportedSel sels = true) (hi : isIntro sels = true) :
+    resolve S tyOrd dirOrd vars sels = some (Spec.select vars sels (introspect S)) := by
+  simp only [supportedSel, Bool.and_eq_true, decide_eq_true_eq] at hsel
+  simp only [resolve, hi, if_true, Spec.select]
+  rw [rootP_eq S hS hG tyOrd dirOrd hty hdir vars sels hsel.1]
+  congr 2
+  apply assignAll_eq_mergePairs
+  rw [keys_selL]; exact hsel.2
 
 end PebblesVerif
